@@ -3,6 +3,7 @@ package main
 import (
 	"fmt"
 	"math/rand"
+	"runtime"
 	"sync"
 	"sync/atomic"
 	"time"
@@ -41,7 +42,7 @@ type c16sub struct {
 func (o *c16obj) acked() int64 { return atomic.LoadInt64(&o.ackStamp) }
 
 func c16(c *wk.Ctx) {
-	c.Note("rule", "each plan hosts a fresh Probe service and runs a PRNG sequence, then 2-8 concurrent goroutines, of: Service.Add (new object), call work(token) through a proxy, SubscribeTick, Service.Remove, remote terminate() through the object's proxy, removal of an already removed id, remote terminate of a removed object, calls after removal. Oracle: ids returned by Add are unique among live objects; for every object whose removal was acknowledged (Remove returned nil / terminate replied): its OnTerminate hook ran exactly once at quiescence (0 for live objects), every call started after the acknowledgement returns an error and never reaches the object (per-token execution counter), its subscribers' channels get closed (quiescence detector); every object still live answers correctly at the end. Stream readd: the same Actor value is added, subscribed to, called, terminated (remotely or by Remove) and added again, 2-4 lives: in each life the object is callable, the hook count grows by one per acknowledged termination, the subscriber is told, later calls fail. Stream collide: the global math/rand source the service draws identifiers from is re-seeded with one seed before several Add calls, so that each draws an identifier already held: every Add returns, identifiers are unique among the live objects, every object answers and runs its call once. Stream flood: an object whose method is parked is flooded with 8-40 calls from 3-6 connections (mailbox full, routing goroutines waiting) and is terminated remotely / removed locally in the middle, then released: every call and the termination return, no call runs twice, hook once, later calls fail, the sibling answers on every connection. Stream crowd: one object (one case in three: the service's original object, id 1) with 3-24 registrations spread over 1-5 raw connections x 3 signals/properties (+ the generated proxies of a session) is removed or terminates itself: (some registrations are cancelled again, one handler id may be tried on two signals) every (connection, signal) with an acknowledged registration still in place receives the termination error, every proxy channel closes, the hook ran once, the sibling answers. Distinct non-trivial = distinct plans with at least one acknowledged removal followed by a call to the removed object.")
+	c.Note("rule", "each plan hosts a fresh Probe service and runs a PRNG sequence, then 2-8 concurrent goroutines, of: Service.Add (new object), call work(token) through a proxy, SubscribeTick, Service.Remove, remote terminate() through the object's proxy, removal of an already removed id, remote terminate of a removed object, calls after removal. Oracle: ids returned by Add are unique among live objects; for every object whose removal was acknowledged (Remove returned nil / terminate replied): its OnTerminate hook ran exactly once at quiescence (0 for live objects), every call started after the acknowledgement returns an error and never reaches the object (per-token execution counter), its subscribers' channels get closed (quiescence detector); every object still live answers correctly at the end. Stream readd: the same Actor value is added, subscribed to, called, terminated (remotely or by Remove) and added again, 2-4 lives: in each life the object is callable, the hook count grows by one per acknowledged termination, the subscriber is told, later calls fail. Stream collide: the global math/rand source the service draws identifiers from is re-seeded with one seed before several Add calls, so that each draws an identifier already held: every Add returns, identifiers are unique among the live objects, every object answers and runs its call once. Stream flood: an object whose method is parked is flooded with 8-40 calls from 3-6 connections (mailbox full, routing goroutines waiting) and is terminated remotely / removed locally in the middle, then released: every call and the termination return, no call runs twice, hook once, later calls fail, the sibling answers on every connection. Stream crowd: one object (one case in three: the service's original object, id 1) with 3-24 registrations spread over 1-5 raw connections x 3 signals/properties (+ the generated proxies of a session) is removed or terminates itself: (some registrations are cancelled again, one handler id may be tried on two signals) (in a third of the plans one of the connections is closed abruptly right before the removal) every (connection, signal) with an acknowledged registration still in place on a live connection receives the termination error, every proxy channel closes, the hook ran once, the sibling answers. Distinct non-trivial = distinct plans with at least one acknowledged removal followed by a call to the removed object.")
 	var w *world
 	defer func() {
 		if w != nil {
@@ -277,6 +278,25 @@ func c16crowd(c *wk.Ctx, i int, rng *rand.Rand, w *world, sess bus.Session, name
 			}
 		}()
 	}
+	// in a third of the plans with several connections one of them disappears without a word right before
+	// the removal (the server may or may not have noticed yet): its registrations need not be told, all
+	// the others must be
+	vanishedConn := -1
+	if nConn >= 2 && rng.Intn(3) == 0 {
+		vanishedConn = rng.Intn(nConn)
+		conns[vanishedConn].close()
+		mu.Lock()
+		for r := range want {
+			if r.conn == vanishedConn {
+				delete(want, r)
+			}
+		}
+		mu.Unlock()
+		for y := rng.Intn(3) * rng.Intn(200); y > 0; y-- {
+			runtime.Gosched()
+		}
+		c.Count("crowd_plans_with_a_subscriber_connection_that_vanished", 1)
+	}
 	how := "Service.Remove"
 	if rng.Intn(2) == 0 {
 		how = "remote terminate"
@@ -284,7 +304,7 @@ func c16crowd(c *wk.Ctx, i int, rng *rand.Rand, w *world, sess bus.Session, name
 	} else {
 		err = ps.service.Remove(obj)
 	}
-	detail := map[string]interface{}{"service": name, "connections": nConn, "registrations_attempted": total, "registrations_acknowledged": len(want), "proxy_subscriptions": nProxy, "removal": how, "removed_object_id": obj}
+	detail := map[string]interface{}{"service": name, "connections": nConn, "registrations_attempted": total, "registrations_acknowledged": len(want), "proxy_subscriptions": nProxy, "removal": how, "removed_object_id": obj, "connection_that_vanished_before": vanishedConn}
 	if err != nil {
 		c.Viol("crowd", i, "remove=error", how+" of a live object failed: "+err.Error(), detail)
 		return
